@@ -396,3 +396,43 @@ def corpus_case(v, name=None, site_re=None):
     if c.get("id") != "k_" + re.sub(r"[^A-Za-z0-9]", "_", name or ""):
         return False
     return re.search(site_re, v.get("site") or "") is not None if site_re else True
+
+
+def _case_docs(v):
+    c = v.get("case") or {}
+    for st in c.get("history") or []:
+        if st.get("op") == "root":
+            yield st.get("schema") or {}
+        elif st.get("op") == "refs":
+            yield {"definitions": {k: s_ for k, s_ in st.get("defs") or []}}
+        elif st.get("op") == "type":
+            yield st.get("schema") or {}
+
+
+@_pred
+def null_only_union(v):
+    """KF-C01-1: the input contains a oneOf/anyOf with >=2 branches, all of them {type: null}; the panic is the
+    untagged-enum assertion in to_stream."""
+    if "assertion failed: variants" not in (v.get("site") or ""):
+        return False
+    for doc in _case_docs(v):
+        for s_ in common.walk_doc(doc):
+            for key in ("oneOf", "anyOf"):
+                bs = s_.get(key) if isinstance(s_, dict) else None
+                if isinstance(bs, list) and len(bs) >= 2 and all(isinstance(b, dict) and b.get("type") == "null" and
+                                                                 set(b) <= {"type", "description", "title"} for b in bs):
+                    return True
+    return False
+
+
+@_pred
+def self_alias_definition(v):
+    """KF-C01-2: a definition that is nothing but a $ref to itself; the only error codes are E0119 (+ consequences)."""
+    if "E0119" not in (v.get("codes") or []):
+        return False
+    for doc in _case_docs(v):
+        for name, s_ in (doc.get("definitions") or {}).items():
+            if isinstance(s_, dict) and s_.get("$ref") == "#/definitions/" + name and \
+                    set(s_) <= {"$ref", "description", "title"}:
+                return True
+    return False
